@@ -319,12 +319,60 @@ def run(ctx):
         f = u.func('phosg::' + nm)[0]
         ctx.fn(nm)
         body = body_of(f)
-        skip = [x for x in walk(body) if x.get('kind') == 'IfStmt' and any(y.get('kind') == 'ContinueStmt' for y in walk(if_parts(x)[1]))]
-        lits = sorted(strip(a).get('value', '') for x in skip for c in calls_named(if_parts(x)[0], ('strcmp',)) for a in call_args(c) if strip(a).get('kind') == 'StringLiteral')
-        ctx.check(len(skip) == 1 and lits == ['"."', '".."'], R, nm + '|skips-dot-entries', skip[0] if skip else f, 'exactly . and .. are dropped', 'directory listing drops %s' % lits)
+        addc = [c for c in walk(body) if c.get('kind') == 'CXXMemberCallExpr' and call_name(c) in ('emplace', 'emplace_back', 'insert', 'push_back') and canon(member_call_object(c)) == 'files']
+        # a name is collected iff it differs from "." and from "..": judged on the facts that hold
+        # where the name is added (any spelling: skip-with-continue, positive test, helper predicate)
+        differs, other_name_tests, helpers = set(), [], []
+        if len(addc) == 1:
+            for n_, pol_ in atoms(path_facts(addc[0])):
+                n0 = strip(n_)
+                r_ = relation(n0, pol_)
+                call_, nonzero = None, None
+                if n0.get('kind') == 'CallExpr' and call_name(n0) == 'strcmp':
+                    call_, nonzero = n0, pol_
+                elif r_ and strip(r_[0]).get('kind') == 'CallExpr' and call_name(strip(r_[0])) == 'strcmp' and int_value(r_[2]) == 0 and r_[1] in ('!=', '=='):
+                    call_, nonzero = strip(r_[0]), r_[1] == '!='
+                if call_ is not None:
+                    lit = [strip(a_).get('value', '') for a_ in call_args(call_) if strip(a_).get('kind') == 'StringLiteral']
+                    if nonzero and lit:
+                        differs.add(lit[0])
+                    else:
+                        other_name_tests.append(src_text(n0, 50))
+                elif 'd_name' in canon(n0) and not (n0.get('kind') == 'CallExpr' and call_name(n0) == 'readdir'):
+                    if n0.get('kind') == 'CallExpr' and callee_decl(n0, u) is not None and body_of(callee_decl(n0, u)) is not None:
+                        helpers.append((n0, pol_))
+                    elif 'readdir' not in canon(n0) and 'entry' != canon(n0):
+                        other_name_tests.append(src_text(n0, 50))
+        if helpers and not differs:
+            # a helper predicate decides: fold it on witness names (refutes a wrong filter; cannot prove a right one)
+            from peval import PEval, Lit, Undecided, Fault
+            PEh = PEval([u])
+            hn, hpol = helpers[0]
+            hd = callee_decl(hn, u)
+            verdicts = {}
+            try:
+                for wname in (b'.', b'..', b'...', b'..a', b'.a', b'a', b'a.', b''):
+                    verdicts[wname] = bool(PEh.call_with(hd, [Lit(wname + b'\0')]))
+            except (Undecided, Fault) as e:
+                verdicts = None
+            if verdicts is None:
+                ctx.undecided(R, nm + '|skips-dot-entries', hn, 'the entry filter is the helper %s, which could not be folded on witness names' % hd.get('name'))
+            else:
+                dropped = sorted(k_.decode() for k_, v_ in verdicts.items() if v_ != hpol)
+                if dropped == ['.', '..']:
+                    ctx.undecided(R, nm + '|skips-dot-entries', hn, 'the entry filter is the helper %s: it drops exactly "." and ".." on the witness names, which does not prove it for every name' % hd.get('name'))
+                else:
+                    ctx.bad(R, nm + '|skips-dot-entries', hn, 'the entry filter %s drops the names %s; exactly "." and ".." must be dropped' % (hd.get('name'), dropped))
+        else:
+            ctx.check(len(addc) == 1 and differs == {'"."', '".."'} and not other_name_tests, R, nm + '|skips-dot-entries', addc[0] if addc else f, 'a name is collected iff it is neither "." nor ".."',
+                      'directory listing collects a name under: differs from %s%s; exactly "." and ".." must be dropped' % (sorted(differs), (' and ' + '; '.join(other_name_tests)) if other_name_tests else ''))
         cd = calls_named(body, ('closedir',))
         rets = [r for r in walk(body) if r.get('kind') == 'ReturnStmt']
-        ctx.check(len(cd) == 1 and enclosing(cd[0], LOOPS) is None and all(cd[0]['_off'] < r['_off'] for r in rets), R, nm + '|closedir', cd[0] if cd else f, 'handle closed before returning', 'the directory handle is not closed on the normal path')
+        raii = [v for v in walk(body) if v.get('kind') == 'VarDecl' and 'unique_ptr' in (qtype(v) or '') and any((ref_decl(y) or {}).get('name') == 'closedir' for y in walk(v))]
+        if raii:
+            ctx.ok(R, nm + '|closedir', raii[0], 'the handle is owned by a unique_ptr whose deleter is closedir')
+        else:
+            ctx.check(len(cd) == 1 and enclosing(cd[0], LOOPS) is None and all(cd[0]['_off'] < r['_off'] for r in rets), R, nm + '|closedir', cd[0] if cd else f, 'handle closed before returning', 'the directory handle is not closed on the normal path')
         addc = [c for c in walk(body) if c.get('kind') == 'CXXMemberCallExpr' and call_name(c) in ('emplace', 'emplace_back', 'insert', 'push_back') and canon(member_call_object(c)) == 'files']
         ctx.check(len(addc) == 1 and 'entry.d_name' in nf(call_args(addc[0])[0]), R, nm + '|collects-names', f, 'every other entry name is collected', 'entry collection changed')
     un = [f for f in u.func('phosg::unlink') if len(params_of(f)) == 2][0]
